@@ -36,10 +36,10 @@ RULE = ("seeded version lists (1-4 versions, newest first) rendered from record 
         "reorder/comment edits; plus identical-copy lists, single versions and unsupported "
         "file names; a case is distinct by (format, version texts)")
 
-FORMATS = ["properties", "dtd", "ini", "ftl", "inc", "android"]
+FORMATS = ["properties", "dtd", "ini", "ftl", "inc", "android", "po"]
 FNAME = {"properties": "browser/foo.properties", "dtd": "foo.dtd", "ini": "x/foo.ini",
          "ftl": "foo.ftl", "inc": "defines.inc", "android": "res/values/strings.xml",
-         "po": "de/foo.po"}     # po: only in the C16 suites (tuple keys, see key_str)
+         "po": "de/foo.po"}     # po: keys are (msgid, msgctxt) tuples, see key_str
 PARSER_CODE = {"android": 0, "dtd": 1, "properties": 2, "ini": 3, "inc": 4, "ftl": 5, "po": 6}
 
 K_ENTITY, K_COMMENT, K_WHITE, K_JUNK, K_STICKY, K_OTHER, K_PLACEHOLDER, K_SECTION = range(8)
@@ -159,7 +159,12 @@ def render_value(fmt, rng, lang="L"):
     elif fmt == "inc":
         v = v.replace("\n", " ")
     elif fmt == "po":
-        v = 'msgstr "%s"' % v        # PoEntity.raw_val is the whole msgstr clause
+        # PoEntity.raw_val is the whole msgstr clause; string lists may span lines
+        if r < 0.2 and " " in v:
+            a, b = v.split(" ", 1)
+            v = 'msgstr ""\n"%s "\n"%s"' % (a, b)
+        else:
+            v = 'msgstr "%s"' % v
     return v
 
 
@@ -173,7 +178,10 @@ def key_name(fmt, i):
     if fmt == "android":
         return "key_%d" % i
     if fmt == "po":
-        return "key %d" % i
+        # key_str of (msgid, msgctxt): with context for some, one msgid in two contexts
+        if i % 5 == 4:
+            return "same id\x04ctx %d" % i
+        return "key %d" % i + ("\x04menu %d" % i if i % 3 == 1 else "")
     return "key%d" % i
 
 
@@ -222,9 +230,16 @@ def render_entity(fmt, key, value, style=0):
             return "%s =\n    %s" % (key, value)
         return "%s = %s" % (key, value)
     if fmt == "android":
+        if value is None:
+            return '<string name="%s"/>' % key
         return '<string name="%s">%s</string>' % (key, value)
     if fmt == "po":
-        return 'msgid "%s"\n%s' % (key, value)
+        msgid, _, ctx = key.partition("\x04")
+        head = 'msgctxt "%s"\n' % ctx if ctx else ""
+        if style == 1 and " " in msgid:       # a multi-line string list evaluates to the same id
+            a, b = msgid.split(" ", 1)
+            return head + 'msgid ""\n"%s "\n"%s"\n%s' % (a, b, value)
+        return head + 'msgid "%s"\n%s' % (msgid, value)
     raise ValueError(fmt)
 
 
@@ -239,7 +254,9 @@ def render(fmt, items, style=0):
                 out.append(ind + render_comment(fmt, it[3]) + "\n")
             out.append(ind + render_entity(fmt, it[1], it[2], style) + "\n")
         elif t == "com":
-            out.append(ind + render_comment(fmt, it[1]) + "\n\n")
+            # standalone: more than one newline after the comment (the PO comment regex
+            # takes the comment's own newline)
+            out.append(ind + render_comment(fmt, it[1]) + ("\n\n\n" if fmt == "po" else "\n\n"))
         elif t == "lic":
             # directly in front of an entity without a comment of its own: the
             # parser's License heuristic keeps it standalone; else a blank line
@@ -268,7 +285,7 @@ def gen_items(fmt, rng, nkeys, lang="L", blanks=True):
     if rng.random() < 0.5:
         rng.shuffle(keys)
     items = []
-    loose = (fmt != "inc" or blanks) and fmt != "po"   # .inc: blank lines only under `#filter emptyLines`
+    loose = fmt != "inc" or blanks      # .inc: blank lines only under `#filter emptyLines`
     if fmt == "inc" and blanks:
         items.append(("pi", "filter emptyLines"))
         items.append(("blank",))
@@ -431,7 +448,7 @@ def parsed_items(fmt, entries):
         if k == K_JUNK:
             out.append(("junk", e.all))
         elif k in (K_ENTITY, K_PLACEHOLDER):
-            out.append(("e", e.key))
+            out.append(("e", key_str(e.key)))
         elif k == K_COMMENT:
             seen[e.val] = seen.get(e.val, 0) + 1
             out.append(("c", e.val, seen[e.val]))
@@ -478,7 +495,7 @@ def flat_parsed(fmt, entries):
             _, com = entity_facts(fmt, e)
             if com is not None:
                 out.extend(("c", part) for part in com.split("\n"))
-            out.append(("e", e.key))
+            out.append(("e", key_str(e.key)))
         elif k in (K_OTHER, K_SECTION):
             out.append(("s" if k == K_SECTION else "p", e.key))
     return out
@@ -519,13 +536,13 @@ def oracle_merge(chk, case, out_text):
     for e in entries:
         if ckind(e) == K_ENTITY:
             raw, com = entity_facts(fmt, e)
-            v, c = want_vals[e.key]
+            v, c = want_vals[key_str(e.key)]
             c = None if c is None else comment_val(fmt, c)
             if fmt == "ftl" and "\n" in v:
                 pass
             if raw != v or com != c:
                 chk.fail("merge-newest-wins", desc,
-                         {"output": out_text, "key": e.key, "got": [raw, com], "expected": [v, c]})
+                         {"output": out_text, "key": key_str(e.key), "got": [raw, com], "expected": [v, c]})
                 return
     same = all(t == case["texts"][0] for t in case["texts"])
     if same:
@@ -673,10 +690,7 @@ def run_sequences(chk, model):
     for seq in seq_sequences(rng, chk.n(150, 1500)):
         history = []
         for name, fmt, sup in seq:
-            if fmt == "po":
-                case = {"fmt": "po", "items": None, "texts": [PO_TEXT, PO_TEXT]}
-            else:
-                case = gen_case(rng, fmt)
+            case = gen_case(rng, fmt)
             res, text = impl_merge(name, case["texts"])
             chk.count(("seq", tuple(history), name, case["texts"]))
             desc = {"sequence_before": list(history), "name": name, "fmt": fmt,
@@ -694,12 +708,7 @@ def run_sequences(chk, model):
             history.append(name)
             cases.append(desc)
             impl.append(res)
-            if fmt == "po":
-                reqs.append((1, s2l(name)))
-                impl[-1] = [0, [PARSER_CODE["po"]]] if sup and text is not None else \
-                    ([0, []] if res == [1, 11] else res)
-            else:
-                reqs.append((0, [s2l(name), model_versions(FNAME[fmt], case["texts"])]))
+            reqs.append((0, [s2l(name), model_versions(FNAME[fmt], case["texts"])]))
     if model:
         chk.correspond("SEQUENCE", cases, impl, model.call(reqs))
 
@@ -826,7 +835,7 @@ def impl_entries(name, texts, keep):
         es = merge_resources(get_parser(name), [t.encode("utf-8") for t in texts],
                              keep_newest=keep)
         return [0, [[ckind(e), s2l(e.val if ckind(e) == K_COMMENT else
-                                  ("" if ckind(e) == K_WHITE else e.key)), s2l(e.all)]
+                                  ("" if ckind(e) == K_WHITE else key_str(e.key))), s2l(e.all)]
                     for e in es]]
     except Exception as e:  # noqa
         return [1, common.TAGS.get(type(e).__name__, 99)]
